@@ -94,6 +94,8 @@ class Runtime:
 
     def begin_exploration(self):
         """From here on scheduling points may be deviated from (the handshake prefix stays default)."""
+        if self.exploring:
+            return              # a scenario that explores from an earlier point on keeps that point
         self.exploring = True
         self.explore_from = len(self.points)
 
